@@ -6,7 +6,7 @@ SPECIFICATION Spec
 CONSTANTS
   TargetSet = {"x86_64-sysv", "aarch64", "riscv64"}
   MaxDepth = 4
-  Devs = {"CompositeIsFirst", "ArrayQualOnArrayType"}
+  Devs = {"CompositeIsFirst", "ArrayQualOnArrayType", "FoldedCondKeepsDecay", "FoldedNullVoidPtrIsNpc"}
   Emit = TRUE
 INVARIANTS Inv_Emit Inv_DevsExplain
 CHECK_DEADLOCK FALSE
